@@ -26,7 +26,7 @@ import threading
 import math
 
 from ..core.agent import BioAgent
-from ..core.types import Signal, ActionProtein
+from ..core.types import Signal, ActionProtein, describe_error
 from ..state.metabolism import ATP_Store
 
 
@@ -259,14 +259,14 @@ class QuorumSensing:
                 profile.votes_cast += 1
             except Exception as e:
                 if not self.silent:
-                    print(f"⚠️ [Quorum] Agent {profile.agent.name} failed: {e}")
+                    print(f"⚠️ [Quorum] Agent {profile.agent.name} failed: {describe_error(e)}")
                 # Record abstain for failed agents
                 votes.append(Vote(
                     agent_id=profile.agent.name,
                     vote_type=VoteType.ABSTAIN,
                     confidence=0.0,
                     weight=profile.weight,
-                    reasoning=f"Error: {e}"
+                    reasoning=f"Error: {describe_error(e)}"
                 ))
 
         # Aggregate votes based on strategy
